@@ -178,5 +178,5 @@ def _unwrap(f):
     return lambda rec, c=None, **kw: f(rec, **(c if c is not None else kw))
 
 
-CHECKS = [Check("flow_balance", _unwrap(body_flow), lambda: {"c": table_case()}, quick=2500, thorough=30000,
+CHECKS = [Check("flow_balance", _unwrap(body_flow), lambda: {"c": table_case()}, quick=2500, thorough=12000,
                 quick_shards=12)]
